@@ -4,7 +4,7 @@
 //       listfile lines:  <mode> <budget_seconds> <path | hex:<bytes>>     mode: x = exchange file, w = working-session file
 //       (hex: the bytes are written to a private temporary file first — the reader re-opens the file by name for pass 2)
 //       per input:  "B <idx>"  (before),  then
-//                   "E <idx> sev=<int> ord=<0|1> n=<instances> out=<bytes written> ms=<wall>"  (after)
+//                   "E <idx> sev=<int> ord=<0|1> n=<instances> out=<bytes written> ms=<wall> cpu=<process CPU ms>"  (after)
 //       read (ReadExchangeFile | ReadWorkingFile) -> WriteExchangeFile -> WriteWorkingFile, all on fresh objects.
 //       alarm(<budget>) is armed per input: SIGALRM kills the process => the driver sees "B i" without "E i" and
 //       WTERMSIG == SIGALRM  (time-out);  a sanitizer report exits 99/98;  any other signal is a crash.
@@ -21,6 +21,7 @@
 #include <unistd.h>
 #include <fcntl.h>
 #include <chrono>
+#include <ctime>
 #include <fstream>
 #include <iostream>
 #include <sstream>
@@ -88,6 +89,7 @@ static int run_files( const char * listfile ) {
         }
         fprintf( proto, "B %d\n", idx ); fflush( proto );
         auto t0 = std::chrono::steady_clock::now();
+        struct timespec c0; clock_gettime( CLOCK_PROCESS_CPUTIME_ID, &c0 );
         alarm( budget > 0 ? budget : 1 );
         long outb = 0; int sev = 0, n = 0;
         {
@@ -106,7 +108,9 @@ static int run_files( const char * listfile ) {
         }
         alarm( 0 );
         double ms = std::chrono::duration<double, std::milli>( std::chrono::steady_clock::now() - t0 ).count();
-        fprintf( proto, "E %d sev=%d ord=%d n=%d out=%ld ms=%.1f\n", idx, sev, ordinary( sev ) ? 1 : 0, n, outb, ms );
+        struct timespec c1; clock_gettime( CLOCK_PROCESS_CPUTIME_ID, &c1 );
+        double cpu = ( c1.tv_sec - c0.tv_sec ) * 1000.0 + ( c1.tv_nsec - c0.tv_nsec ) / 1.0e6;   // independent of machine load
+        fprintf( proto, "E %d sev=%d ord=%d n=%d out=%ld ms=%.1f cpu=%.1f\n", idx, sev, ordinary( sev ) ? 1 : 0, n, outb, ms, cpu );
         fflush( proto );
         idx++;
     }
